@@ -58,6 +58,10 @@ def mon_c01(rec):
             out.append("call tag %d never returned" % c["tag"])
             continue
         got = invs.get(c["tag"], [])
+        if c["m"] == "EchoIntCancelled":
+            if c["err"] != "context canceled" or c["ret"] != "0" or len(got) > 1:
+                out.append("call tag %d made with an already cancelled context returned (%s, %r) and caused %d invocations, expected (0, 'context canceled') and at most one" % (c["tag"], c["ret"], c["err"], len(got)))
+            continue
         if len(got) != 1:
             out.append("call tag %d caused %d invocations, expected exactly one" % (c["tag"], len(got)))
             continue
@@ -100,6 +104,8 @@ def mon_c02(rec):
                 out.append("alternating call chain of depth %s from %s returned (%s, %r)" % (c["arg"], c["from"], c["ret"], c["err"]))
         if c["m"] == "Iter" and (c["err"] != "" or c["ret"] != "n0/;n1/;n2/"):
             out.append("closure calls issued while handlers were stalled returned (%s, %r)" % (c["ret"], c["err"]))
+        if c["m"] == "Spawn" and (c["err"] != "" or c["ret"] != "640"):
+            out.append("a handler that starts a call back on a goroutine of its own and returns at once: its caller got (%s, %r) instead of (640, '') within 4 s - the response waited for the spawned call, whose handler is stalled" % (c["ret"], c["err"]))
         if c["m"] == "Gate" and (c["err"] != "" or c["ret"] != str(c["tag"])):
             out.append("stalled handler tag %d returned (%s, %r) after its gate opened" % (c["tag"], c["ret"], c["err"]))
     return out
@@ -222,6 +228,12 @@ def mon_c11(rec):
         elif c["m"] == "IterCount":
             if c["err"] != "" or c["ret"] != "0:0/;1:10/;2:8589934594/":
                 out.append("closure with named integer parameters: the callee's invocations returned %r (error %r), expected '0:0/;1:10/;2:8589934594/'" % (c["ret"], c["err"]))
+        elif c["m"] == "Groups":
+            if c["err"] != "" or c["ret"] != "1[alice],0[],2[bob carol],0[]":
+                out.append("a function whose parameter is a list of lists, invoked with a nil inner list: the caller's function reported %r (error %r), expected '1[alice],0[],2[bob carol],0[]'" % (c["ret"], c["err"]))
+        elif c["m"] == "OverlappingSameFunction":
+            if c["ret"] != "4910/;5011/":
+                out.append("two overlapping calls of the same remote function, each passing its own function: they returned %r, expected '4910/;5011/' - when the first call returned, the registration of the second call's function (a call still in flight; a late invocation it is not) must still exist" % c["ret"])
         elif c["m"] == "IterPanicsOnce":
             if c["err"] != "" or c["ret"] != "/cbpanic;r1/;r2/" or c.get("extra") != "3":
                 out.append("a function argument that panics on its first invocation: the callee's three invocations ended as %r (call error %r), the function ran %s time(s); expected '/cbpanic;r1/;r2/' and 3 - a late invocation is what must be rejected, not an invocation while the call is in flight" % (c["ret"], c["err"], c.get("extra")))
@@ -254,6 +266,9 @@ def mon_c11(rec):
                 out.append("a call with an unencodable argument returned a nil error")
             if c.get("extra") != "0":
                 out.append("after a call failed to encode a later argument, %s closure registration(s) of its earlier argument remain" % c.get("extra"))
+        elif c["m"] == "InvokeWhileResponseInTransit":
+            if c["err"] != "" or c["ret"] != "21" or c.get("extra") != "1":
+                out.append("not a late invocation: the callee's handler had returned but its response was still in transit, so the call had NOT returned on the caller's side: invoking its function returned (%s, %r), function ran %s time(s); expected (21, '') and 1 - the registration lives until the call returns on the caller's side" % (c["ret"], c["err"], c.get("extra")))
         elif c["m"] == "LateInvokeWhileOtherInFlight":
             if c["err"] != "closure does not exist" or c.get("extra") != "false/0":
                 out.append("late invocation of a closure whose call has returned, made while another closure-carrying call was in flight: error %r, functions ran (own/other) %s, expected 'closure does not exist' and false/0 (it must not reach any function)" % (c["err"], c.get("extra")))
@@ -377,7 +392,7 @@ def mon_c17(rec):
     if rec["family"] == "foreign":
         want = {901: ("c1", 5, ""), 902: ("c2", "hi", ""), 903: ("c3", None, ""), 904: ("c4", None, "nope"), 905: ("c5", 2905, ""),
                 906: ("c6", 3, ""), 907: ("c7", 0, ""), 908: ("c8", "", ""), 909: ("c9", None, ""), 910: ("c10", "hello x", ""), 911: ("s1", 6, ""), 912: ("s2", "x", ""), 913: ("s3", None, ""),
-                915: ("s5", 7, ""), 917: ("s7", 0, ""), 920: ("s10", 8, ""), 921: ("c21", 4921, ""), 922: ("c22", 924, "")}
+                915: ("s5", 7, ""), 917: ("s7", 0, ""), 920: ("s10", 8, ""), 921: ("c21", 4921, ""), 922: ("c22", 924, ""), 923: ("c23", "3", "")}
         for c in rec["foreign"] or []:
             if c.get("extra") == "none-expected":
                 if c["ret"]:
@@ -504,6 +519,10 @@ def mon_framing(rec):
         if c["m"] == "MissingAnswer":
             out.append("%s: after the peer handed back the result of a callable together with a further request, an answer is missing (the callable's result was not handed to the invocation, or the request was not handled)" % rec["config"])
             continue
+        if c["m"] == "NodeCallEager":
+            if (c["ret"], c["err"]) != (c["arg"], ""):
+                out.append("%s: the peer's answer was handed to the registry before the write of the request had returned: the call returned (%s, %r), expected (%s, '')" % (rec["config"], c["ret"], c["err"], c["arg"]))
+            continue
         w = want.get(c["m"])
         if w and (c["ret"], c["err"]) != w:
             out.append("%s: %s returned (%s, %r), expected (%s, %r): every request and every response that arrives is delivered, however the peer frames them" % (rec["config"], c["m"], c["ret"], c["err"], w[0], w[1]))
@@ -520,6 +539,8 @@ def mon_relay(rec):
     for c in rec["calls"] or []:
         if c["m"] == "ProbeOtherLink" and (c["err"] != "" or c["ret"] != "42"):
             out.append("after link 0 ended (and a call relayed over link 1 with a context of link 0 was aborted), a new call on link 1 from %s returned (%s, %r)" % (c["from"], c["ret"], c["err"]))
+        elif c["m"] == "OtherLinkStillUp" and c["ret"] != "up":
+            out.append("after link 0 ended, the Link call of link 1 on %s returned %r although nothing happened on link 1 (a handler serving link 0 had invoked, with its request's context, a callable passed by link 1's peer)" % (c.get("extra"), c["err"]))
         elif c["m"] == "InFlightOnOtherLink" and (c["err"] != "" or c["ret"] != str(c["tag"])):
             out.append("the call in flight on link 1 (from %s) when link 0 ended returned (%s, %r)" % (c["from"], c["ret"], c["err"]))
     for e in rec.get("events") or []:
@@ -604,6 +625,12 @@ def mon_c04_sys(rec):
             want = "42" if m == "Probe" else "p/"
             if c["err"] != "" or c["ret"] != want:
                 out.append("the link is not healthy %s: a later %s call from %s returned (%s, %r)" % (c.get("extra"), "closure-carrying" if m == "ProbeClosure" else "plain", c["from"], c["ret"], c["err"]))
+        elif m == "CancelledWhileOtherWriteStuck":
+            if c["err"] != "context canceled" or c["ret"] != "0":
+                out.append("while the write of ANOTHER call's request was stuck in the transport (stream API, encode function safe for concurrent use), a call whose context was cancelled returned (%s, %r) instead of promptly (0, 'context canceled')" % (c["ret"], c["err"]))
+        elif m == "CallWhileOtherWriteStuck":
+            if c["err"] != "" or c["ret"] != '"c"':
+                out.append("while the write of another call's request was stuck in the transport, an independent call returned (%s, %r), expected (\"c\", '')" % (c["ret"], c["err"]))
         elif m == "MassCancelled":
             if c["ret"] != "0":
                 out.append("%s of %s calls cancelled while their handlers were running did not return promptly with the context's error" % (c["ret"], c["arg"]))
@@ -631,10 +658,17 @@ def mon_c04_sys(rec):
 MONITORS = {"C14": mon_hooks, "C01": mon_c01, "C02": mon_c02, "C09": mon_c09, "C10": mon_c10, "C11": mon_c11, "C13": mon_c13, "C17": mon_c17}
 
 
+# the response-in-transit scenario holds frames of the response direction only, which needs the message API's separate
+# response transport: it is a device of the harness, not a configuration of panrpc, and is left out of the comparison
+MESSAGE_API_ONLY_TAGS = {4970, 4971}
+
+
 def transcript(rec):
     """normalised transcript for C08: ids erased, per-call lines sorted"""
     lines = []
     for c in rec["calls"] or []:
+        if c["tag"] in MESSAGE_API_ONLY_TAGS:
+            continue
         err = c["err"]
         if c["m"] == "CbFirstUnencodable" and err:
             err = "<the serializer's own error for an unencodable value>"
@@ -642,6 +676,8 @@ def transcript(rec):
     evs = collections.Counter()
     for e in rec.get("events") or []:
         if e["kind"] == "inv":
+            if e["tag"] in MESSAGE_API_ONLY_TAGS:
+                continue
             evs["inv|%s|%s|%d|%s" % (e["node"], e["m"], e["tag"], e.get("data", "") if rec["family"] != "values" else "")] += 1
         elif e["kind"] == "hook":
             evs["hook|%s|%s" % (e["node"], e["m"])] += 1
